@@ -130,7 +130,10 @@ class Runner:
 
     def fresh(self):
         if self.eng is not None:
-            self.eng.close()
+            try:
+                self.eng.close()
+            except Exception:
+                pass
         self.eng = kdrv.Engine(workdir=self.workdir)
         self.base = 1
         self.histories = 0
@@ -638,11 +641,24 @@ def _strip(res):
 def _run_chunk(chunk):
     out = []
     for h in chunk:
-        try:
-            out.append(_strip(_RUNNER.run(h)))
-        except Exception as e:      # reported by the parent as a broken correspondence
-            out.append({'error': '%s: %s' % (type(e).__name__, e), 'history': h})
+        res = None
+        for attempt in (0, 1, 2):
+            try:
+                res = _strip(_RUNNER.run(h))
+                err = None
+            except Exception as e:
+                res, err = None, '%s: %s' % (type(e).__name__, e)
+            # the scratch database vanished under the engine (work/C04 wiped by a concurrent run of this check):
+            # nothing the code under test can cause; run the history again on a fresh engine
+            if _RUNNER.eng is not None and not os.path.exists(_RUNNER.eng.path):
+                _RUNNER.fresh()
+                res = None
+                continue
+            break
+        if res is None:      # reported by the parent as a broken correspondence
+            res = {'error': err or 'scratch database kept vanishing', 'history': h}
             _RUNNER.fresh()
+        out.append(res)
     return out
 
 
